@@ -353,6 +353,39 @@ class Dyn:
             return
         if again != wire:
             self.witness(f"dyn.ede_mismatch:{cls.__name__}", {**desc, "len_a": len(wire), "len_b": len(again)}, replay)
+        # 4. the message has been looked at (encoded above; sometimes also through .avps / find_avps); now a list
+        # attribute is changed IN PLACE (what the documented add_* helpers do) and the message is encoded again: it must
+        # come out like a message built from scratch with the same final attribute values
+        lists = [(name, v) for name, (d, v) in sorted(set_vals.items()) if isinstance(v, list) and v]
+        if lists and self.erng.random() < 0.5:
+            look = self.erng.choice(["as_bytes", "avps", "find_avps"])
+            try:
+                if look == "avps":
+                    list(m.avps)
+                elif look == "find_avps":
+                    m.find_avps((263, 0))
+            except Exception:
+                pass
+            name, v = lists[self.erng.randrange(len(lists))]
+            v.append(v[0])
+            self.cov["rerender_after_inplace_change"] = self.cov.get("rerender_after_inplace_change", 0) + 1
+            try:
+                second = m.as_bytes()
+                fresh = cls()
+                fresh.header.hop_by_hop_identifier = m.header.hop_by_hop_identifier
+                fresh.header.end_to_end_identifier = m.header.end_to_end_identifier
+                for n2, (d2_, v2) in set_vals.items():
+                    setattr(fresh, n2, v2)
+                for o in (objs if n_extra else []):
+                    fresh.append_avp(o)
+                want = fresh.as_bytes()
+            except Exception as e:
+                self.witness(f"dyn.rerender_raised.{type(e).__name__}:{cls.__name__}", {**desc, "attr": name, "exc": repr(e)[:160]})
+                return
+            if second != want:
+                self.witness(f"dyn.rerender_after_inplace_change_stale:{cls.__name__}",
+                             {**desc, "attr": name, "looked_at_through": look, "len_second": len(second),
+                              "len_fresh": len(want), "len_first": len(wire)})
 
     def classify_emit(self, cls, missing, extra):
         codes = sorted({(x[0], x[1]) for x in missing + extra})
